@@ -260,6 +260,29 @@ def run(index, rep, tier):
                     rep.ob("R11.9", fn_where(fi, lp), "%s walks a snapshot of `%s`" % (fi.name, lp.iter.args[0].id), True)
         rep.floor("R11.9", "loops over a parameter in TreeList methods", 0, n9)
 
+    # ---- R11.10 an ordered set keeps its list and its set in step
+    with rep.section("R11.10"):
+        rep.rule("R11.10", "an ordered set keeps its list and its set in step: the containers a DataSet holds its components in (utility.container.OrderedSet) take the SAME element out of the hash set and out of the list - the set finds it by hash (identity, for tree lists and matrices), `list.remove(x)` by equality (content), so where both are used the list side first looks for the identical object (`is`) - otherwise removing one of two equal-looking components removes one from the set and the other from the list")
+        oc = index.klass("dendropy.utility.container.OrderedSet")
+        n10 = 0
+        for name in ("remove", "discard"):
+            f = oc.methods.get(name)
+            if f is None:
+                raise AnalysisError("R11.10: OrderedSet.%s vanished" % name)
+            n10 += 1
+            p_ = [x for x in f.params if x != "self"][0]
+            closure = [f]
+            for c in calls_in(f.node):
+                if isinstance(c.func, ast.Attribute) and norm(c.func.value) == "self" and c.func.attr in oc.methods:
+                    closure.append(oc.methods[c.func.attr])
+            by_eq = [c for g_ in closure for c in calls_in(g_.node) if isinstance(c.func, ast.Attribute) and c.func.attr == "remove" and norm(c.func.value) == "self._item_list"]
+            by_id = [x for g_ in closure for x in ast.walk(g_.node) if isinstance(x, ast.Compare) and len(x.ops) == 1 and isinstance(x.ops[0], ast.Is) and not is_none(x.comparators[0])]
+            set_side = [c for g_ in closure for c in calls_in(g_.node) if isinstance(c.func, ast.Attribute) and c.func.attr in ("remove", "discard") and norm(c.func.value) == "self._item_set"]
+            ok = not (by_eq and set_side) or bool(by_id)
+            rep.check(ok, "R11.10", f.qualname, "the list side removes by equality only", fn_where(f, by_eq[0] if by_eq else None), "OrderedSet.%s removes the identical element from both sides" % name,
+                      "OrderedSet.%s takes `%s` out of the hash set (found by hash: identity for TreeList / CharacterMatrix) and then calls `self._item_list.remove(%s)`, which takes out the FIRST element that compares equal: with two empty tree lists over one namespace in a data set, ds.tree_lists.remove(b) leaves b in the list and a in the set - iteration yields b while `a in ds.tree_lists` is True" % (name, p_, p_))
+        rep.floor("R11.10", "removal methods of OrderedSet", 2, n10)
+
 
 def _bound(index, fi, w, val):
     """is the stored value bound to self.taxon_namespace on every path?"""
